@@ -39,6 +39,7 @@ type Out struct {
 	ErrChunk  int      // index of the chunk being consumed when the call returned an error; len(chunks) = at EOF; -1 no error
 	Keys      []string // abstract key observed at each Read call (state after i chunks)
 	KeyFrom   int
+	Stales    []string // fingerprint of the fields the abstract key masks as dead (parallel to Keys)
 	Snaps     []string // concrete live snapshot at each Read call (only when wanted)
 	Result    any      // single-document result (simple form)
 	Docs      []any    // documents delivered (multi mode)
@@ -133,6 +134,7 @@ func (m *M) FeedFrom(chunks [][]byte, cfg Config, wantKeys, wantSnaps bool, from
 			}
 			if wantKeys {
 				o.Keys = append(o.Keys, m.Key(inst))
+				o.Stales = append(o.Stales, m.Stale(inst))
 			}
 			if wantSnaps {
 				o.Snaps = append(o.Snaps, m.Snap(inst))
@@ -455,6 +457,41 @@ func (m *M) Key(inst any) string {
 		}
 		if snap.Bool(inst, "exkey") {
 			b.WriteString(" exkey")
+		}
+	}
+	return b.String()
+}
+
+// Stale fingerprints the private fields that the abstract key treats as dead
+// in the current mode (left-overs of earlier tokens). Two prefixes with the
+// same key but different stale fingerprints must behave alike; the merge
+// audit of the explorer checks exactly that by keeping one witness per
+// distinct fingerprint.
+func (m *M) Stale(inst any) string {
+	var b strings.Builder
+	fmt.Fprintf(&b, "ri=%d rn=%d", snap.Int(inst, "ri"), snap.Int(inst, "rn"))
+	if snap.Has(inst, "nextMode") {
+		b.WriteString(" nm=" + m.ModeName(snap.Str(inst, "nextMode")))
+	}
+	if f, ok := snap.Field(inst, "tmp"); ok {
+		n := f.Len()
+		if n > 2 {
+			n = 2
+		}
+		fmt.Fprintf(&b, " tmp=%d", n)
+	}
+	if f, ok := snap.Field(inst, "num"); ok {
+		n := f.Interface().(gen.Number)
+		fmt.Fprintf(&b, " num=%v%v%v%v%v%v%v", n.I > 0, n.Frac > 0, n.Div > 1, n.Exp > 0, n.Neg, n.NegExp, len(n.BigBuf) > 0)
+	}
+	for _, name := range []string{"plus", "exkey", "mi"} {
+		if f, ok := snap.Field(inst, name); ok {
+			fmt.Fprintf(&b, " %s=%v", name, f.Interface())
+		}
+	}
+	for _, name := range []string{"lastKey", "lastStrKey"} {
+		if f, ok := snap.Field(inst, name); ok {
+			fmt.Fprintf(&b, " %s=%v", name, f.Len() > 0)
 		}
 	}
 	return b.String()
